@@ -37,7 +37,7 @@ TrRequest ==
      \/ (g.w = 0 /\ RequestNoOpt(g.c, d))
      \/ RequestNak(g.c, g.w, d) \/ RequestAckLease(g.c, g.w, d) \/ RequestAckOffer(g.c, g.w, d)
      \/ RequestAckFree(g.c, g.w, d) \/ RequestAckKeepsOffer(g.c, g.w, d)
-     \/ RequestVetoAborts(g.c, g.w, d) \/ RequestVetoKeepsLease(g.c, g.w, d) \/ RequestFault(g.c, g.w, d)
+     \/ RequestVetoAborts(g.c, g.w, d) \/ RequestVetoKeepsLease(g.c, g.w, d, TRUE) \/ RequestVetoKeepsLease(g.c, g.w, d, FALSE) \/ RequestFault(g.c, g.w, d)
   /\ ObsEq(last'.exp, Cur.obs)
 TrRelease ==
   /\ IsEvent("Release") /\ Cur.wf
